@@ -122,7 +122,8 @@ void UtilContext::disasm(uint32_t start, uint32_t end)
 
   int data_size = 0;
 
-  uint32_t n = start;
+  // 64 bit so the walk ends when the image reaches 0xffffffff.
+  uint64_t n = start;
 
   while (n <= end)
   {
